@@ -29,6 +29,7 @@ class Obligation:
         self.failure = None  # dict(model inputs, path, note)
         self.unknown_note = None
         self.sample = None
+        self.known_hits = []
 
     def to_json(self):
         d = {"name": self.name, "kind": self.kind, "deciding": self.deciding, "status": self.status,
@@ -38,6 +39,8 @@ class Obligation:
             d["failure"] = self.failure
         if self.unknown_note:
             d["undecided_reason"] = self.unknown_note
+        if self.known_hits:
+            d["known_hits"] = self.known_hits
         return d
 
 
@@ -151,7 +154,27 @@ class Explorer:
         return not solve.feasible(self.axioms + self.pc + self.guards + [z3.Not(c)])
 
     # -- obligations -----------------------------------------------------------
-    def oblige(self, name, cond, inputs=None, kind="ensures", deciding=True, note=None, _split=False):
+    def oblige(self, name, cond, inputs=None, kind="ensures", deciding=True, note=None, _split=False, known=None):
+        if known:
+            # known findings (known_findings.json): the obligation is discharged *outside* the listed witnesses
+            # (residual: cond or witness), so any other violation of it still fails; where a witness itself
+            # still violates cond, the finding is reported as live
+            c0 = B(cond) if not isinstance(cond, bool) else z3.BoolVal(cond)
+            wit = [(kid, B(w) if not isinstance(w, bool) else z3.BoolVal(w)) for kid, w in known]
+            ok = self.oblige(name, SBool(z3.Or(c0, *[w for _, w in wit])), inputs, kind, deciding, note)
+            ob = self.obligations[name]
+            for kid, w in wit:
+                if any(h["id"] == kid for h in ob.known_hits):
+                    continue
+                v, m, _, _, _ = solve.check(self.axioms + self.pc + [z3.Not(c0), w], timeout_ms=5000, use_cvc5=False)
+                if v == "sat":
+                    ins = inputs if inputs is not None else self.inputs
+                    try:
+                        cm = {k: _jsonable(conc(x, m)) for k, x in ins.items()} if m is not None else None
+                    except Exception as e:
+                        cm = {"_concretisation_error": repr(e)}
+                    ob.known_hits.append({"id": kid, "model": cm})
+            return ok
         ob = self.obligations.get(name)
         if ob is None:
             ob = self.obligations[name] = Obligation(name, kind, deciding)
